@@ -159,38 +159,3 @@ Proof.
   - apply close_all_same_kind.
 Qed.
 
-(* for an object that is not a channel no label is ever "late": the premise of the C07/C09 trace theorems is vacuous *)
-Lemma late_nonchan e l oid o : nth_error (objs e) oid = Some o -> is_chan (o_kind o) = false -> late e l oid = false.
-Proof.
-  intros Ho Hk. unfold late. destruct l; try reflexivity. destruct (dispatched e f) as [g|]; [|reflexivity].
-  unfold late_d. destruct g; try reflexivity. destruct (tget (table e) sid) as [j|] eqn:Et; [|reflexivity].
-  destruct (Nat.eqb_spec j oid) as [->|_]; [|reflexivity]. cbn [andb].
-  unfold closedb. rewrite Ho, (tget_reachb e _ _ Et), Hk. reflexivity.
-Qed.
-
-Lemma no_late_nonchan : forall ls e oid o, Inv e -> nth_error (objs e) oid = Some o -> is_chan (o_kind o) = false ->
-  no_late e ls oid.
-Proof.
-  induction ls as [|[l u] r IH]; intros e oid o I Ho Hk; [exact Logic.I|]. cbn [no_late]. split.
-  - apply (late_nonchan e l oid o Ho Hk).
-  - destruct (step_same_kind u e l I oid o Ho) as (o' & Ho' & Hk' & _).
-    apply (IH _ oid o' (inv_step u e l I) Ho'). rewrite Hk'. exact Hk.
-Qed.
-
-(* C09, without any premise on the continuation: after cancel() of a stream subscription its subscriber is told nothing
-   more — whatever the peer sends, whatever the application does, wherever the connection is lost *)
-Theorem rs_cancel_silences_always u e oid o : Inv e -> nth_error (objs e) oid = Some o -> o_kind o = KRSReq ->
-  ep_step u e (LCancel oid) = (finish e (o_sid o), [XEnq (f_cancel (o_sid o))]) /\
-  forall ls, dsigs oid (concat (snd (ep_run (finish e (o_sid o)) ls))) = [].
-Proof.
-  intros I Ho Hk. destruct (rs_cancel_silences u e oid o I Ho Hk) as [A B]. split; [exact A|].
-  intro ls. apply B. apply (no_late_nonchan ls (finish e (o_sid o)) oid o); [apply inv_finish; exact I|exact Ho|rewrite Hk; reflexivity].
-Qed.
-
-(* C07 for request-stream requesters, without premise: at most one terminal signal and nothing after it, over every
-   history from the creation of the object *)
-Theorem rs_terminal_at_most_once : forall ls e oid o, Inv e -> nth_error (objs e) oid = Some o -> is_chan (o_kind o) = false ->
-  ok_sigs (dsigs oid (concat (snd (ep_run e ls)))).
-Proof.
-  intros ls e oid o I Ho Hk. apply run_sigs_ok; [exact I|]. apply (no_late_nonchan ls e oid o I Ho Hk).
-Qed.
